@@ -60,6 +60,8 @@ Pool == <<
     Ct("Quot", <<Fn("split", "public", <<LocalVar("q", U256, <<Bin("E.Divide", Var("k1"), Var("k2"))>>)>>)>>),
     N("SUP.FunctionDefinition", [fty |-> "function", name |-> "useQ", params |-> <<[present |-> TRUE, storage |-> "", name |-> "q"]>>, attributes |-> <<>>, returns |-> <<>>],
       <<<<U256>>, <<>>, <<>>, <<Block(<<ExprStmt(Bin("E.Multiply", Var("q"), Num("3")))>>)>>>>),
+    \* an inline assembly block in one item says nothing about the state variables of another
+    Ct("AsmUser", <<Fn("raw", "public", <<N("S.Assembly", A0, <<>>)>>)>>),
     \* a loop without a condition, and a loop whose condition reads an array length, in different items
     Ct("Forever", <<Fn("spin", "public", <<N("S.For", A0, <<<<>>, <<>>, <<>>, <<Block(<<N("S.Break", A0, <<>>)>>)>>>>)>>)>>),
     Ct("LenLoop", <<StateVar("arr", N("E.ArraySubscript", A0, <<<<U256>>, <<>>>>), <<>>, <<>>),
